@@ -1,0 +1,97 @@
+//go:build verif
+
+package keygen
+
+// Contracts for key generation (property C11). The cipher, the contract provider and the authorizer are
+// interfaces: their calls are recorded in the ghost trace, and the postconditions below are statements about
+// what was handed to EncryptKey (the minted key) relative to what DecryptKey / Authorize returned (the parent).
+
+import (
+	"github.com/emitter-io/emitter/internal/errors"
+	"github.com/emitter-io/emitter/internal/provider/contract"
+	"github.com/emitter-io/emitter/internal/security"
+	vs "github.com/emitter-io/emitter/internal/verifspec"
+)
+
+// assumed interface contracts: a cipher that decrypts without error returns a 24-byte key (proved for Xtea under
+// C20); an authorizer that allows returns the 24-byte key it decrypted
+//@ assume (github.com/emitter-io/emitter/internal/security/license.Cipher).DecryptKey iface post=post_Cipher_DecryptKey
+func post_Cipher_DecryptKey(res0 security.Key, res1 error) bool { return res1 != nil || len(res0) == 24 }
+
+//@ assume (github.com/emitter-io/emitter/internal/service.Authorizer).Authorize iface post=post_Authorizer_Authorize
+func post_Authorizer_Authorize(res1 security.Key, res2 bool) bool { return !res2 || len(res1) == 24 }
+
+// channel parsing is under contract elsewhere (security.ParseChannel); here only: MakeChannel returns a channel object
+//@ assume github.com/emitter-io/emitter/internal/security.MakeChannel post=post_MakeChannel fresh
+func post_MakeChannel(res0 *security.Channel) bool { return res0 != nil }
+
+// a provider that reports a contract as found returns it
+//@ assume (github.com/emitter-io/emitter/internal/provider/contract.Provider).Get iface post=post_Provider_Get
+func post_Provider_Get(res0 contract.Contract, res1 bool) bool { return !res1 || res0 != nil }
+
+// the permission mask of a request is the union of its letters and never contains the master bit
+//@ verify (*Request).access pre=pre_Request post=post_access props=C11
+//@ loop (*Request).access 0 inv inv_access
+func pre_Request(m *Request) bool { return m != nil }
+func inv_access(i int, m *Request, required uint8) bool {
+	return 0 <= i && i <= len(m.Type) && required&security.AllowMaster == 0
+}
+func post_access(m *Request, res0 uint8) bool { return res0&security.AllowMaster == 0 }
+
+func specBE16(k []byte, i int) uint16 { return uint16(k[i])<<8 | uint16(k[i+1]) }
+func specBE32(k []byte, i int) uint32 {
+	return uint32(k[i])<<24 | uint32(k[i+1])<<16 | uint32(k[i+2])<<8 | uint32(k[i+3])
+}
+
+// specInherits: the minted key k keeps the parent's master id, contract and signature
+func specInherits(k, parent []byte) bool {
+	return len(k) == 24 && len(parent) == 24 && specBE16(k, 2) == specBE16(parent, 2) &&
+		specBE32(k, 4) == specBE32(parent, 4) && specBE32(k, 8) == specBE32(parent, 8)
+}
+
+// CreateKey: only a decryptable master key whose contract is found and validates mints; the minted key inherits
+// master id, contract and signature, carries exactly the requested permissions minus the master bit; a failure
+// mints nothing.
+//@ verify (*Service).CreateKey pre=pre_Service post=post_CreateKey_fail,post_CreateKey_master,post_CreateKey_contract,post_CreateKey_inherit,post_CreateKey_perms props=C11
+func pre_Service(s *Service) bool { return s != nil && s.cipher != nil && s.loader != nil && s.auth != nil }
+func post_CreateKey_fail(s *Service, res0 string, res1 *errors.Error) bool {
+	return res1 == nil || (res0 == "" && (vs.TraceCount("EncryptKey") == 0 || res1 == errors.ErrServerError))
+}
+func specMinted(res1 *errors.Error) bool { // exactly one key was handed to the cipher
+	return vs.TraceFind("DecryptKey") >= 0 && vs.TraceFind("EncryptKey") >= 0 && vs.TraceCount("EncryptKey") == 1
+}
+func post_CreateKey_master(s *Service, res1 *errors.Error) bool { // only a decryptable master key mints
+	d := vs.TraceFind("DecryptKey")
+	parent := vs.TraceRetBytes(d, 0)
+	ok := res1 == nil
+	return (!ok || specMinted(res1)) && (!ok || vs.TraceRetErr(d, 1) == nil) && (!ok || len(parent) == 24) && (!ok || parent[15] == security.AllowMaster)
+}
+func post_CreateKey_contract(s *Service, res1 *errors.Error) bool { // of a contract that was found and validates it
+	d, g, v := vs.TraceFind("DecryptKey"), vs.TraceFind("Get"), vs.TraceFind("Validate")
+	parent := vs.TraceRetBytes(d, 0)
+	return res1 != nil || (g >= 0 && v >= 0 && len(parent) == 24 && vs.TraceArg32(g, 1) == specBE32(parent, 4) && vs.TraceRetBool(g, 1) && vs.TraceRetBool(v, 0))
+}
+func post_CreateKey_inherit(s *Service, res1 *errors.Error) bool {
+	parent, k := vs.TraceRetBytes(vs.TraceFind("DecryptKey"), 0), vs.TraceBytes(vs.TraceFind("EncryptKey"), 1)
+	return res1 != nil || specInherits(k, parent)
+}
+func post_CreateKey_perms(s *Service, access uint8, res1 *errors.Error) bool {
+	k := vs.TraceBytes(vs.TraceFind("EncryptKey"), 1)
+	return res1 != nil || (len(k) == 24 && k[15] == access&^security.AllowMaster)
+}
+
+// ExtendKey: requires Authorize(channel, AllowExtend); the result has permissions parent & access & ^extend
+// (a subset of the parent, of the request, and never extendable again), same master id / contract / signature.
+//@ verify (*Service).ExtendKey pre=pre_Service post=post_ExtendKey props=C11
+func post_ExtendKey(s *Service, access uint8, res0 *security.Channel, res1 *errors.Error) bool {
+	if res1 != nil {
+		return res0 == nil
+	}
+	a, e := vs.TraceFind("Authorize"), vs.TraceFind("EncryptKey")
+	if a < 0 || e < 0 || vs.TraceCount("EncryptKey") != 1 {
+		return false
+	}
+	k := vs.TraceBytes(e, 1)
+	return vs.TraceArg8(a, 2) == security.AllowExtend && vs.TraceRetBool(a, 2) && len(k) == 24 &&
+		k[15]&security.AllowExtend == 0 && k[15]&^access == 0
+}
